@@ -105,7 +105,7 @@ pub enum Comp {
 	/// subscribe_to_method: ok
 	Reg,
 	/// batch: counters and entries in request order
-	Batch { succ: usize, fail: usize, entries: Vec<Result<String, (i32, String, Option<String>)>> },
+	Batch { succ: usize, fail: usize, view: String, entries: Vec<Result<String, (i32, String, Option<String>)>> },
 	/// any other error, as a small enum
 	E(String),
 }
@@ -121,7 +121,7 @@ impl Comp {
 			Comp::CallErr { code, msg, data } => err_repr(*code, msg, data),
 			Comp::Sub(s) => format!("sub:{s}"),
 			Comp::Reg => "reg".into(),
-			Comp::Batch { succ, fail, entries } => {
+			Comp::Batch { succ, fail, view, entries } => {
 				let es: Vec<String> = entries
 					.iter()
 					.map(|e| match e {
@@ -129,7 +129,7 @@ impl Comp {
 						Err((c, m, d)) => err_repr(*c, m, d),
 					})
 					.collect();
-				format!("batch:{succ}:{fail}:{}", es.join(","))
+				format!("batch:{succ}:{fail}:{view}:{}", es.join(","))
 			}
 			Comp::E(s) => format!("E:{s}"),
 		}
@@ -763,7 +763,7 @@ pub fn typed_batch_comp<R: TypedR>(r: &BatchResponse<'_, R>) -> Comp {
 		.collect();
 	// an inconsistent accessor shows up as an impossible success count
 	let succ = if batch_accessors_consistent(r) { r.num_successful_calls() } else { usize::MAX };
-	Comp::Batch { succ, fail: r.num_failed_calls(), entries }
+	Comp::Batch { succ, fail: r.num_failed_calls(), view: batch_view(r), entries }
 }
 
 /// `batch_request::<R>` of `n` entries `m()` on a concrete client, `R` chosen by the type tag of the op line.
@@ -793,6 +793,20 @@ macro_rules! typed_batch_on {
 	}};
 }
 
+/// What the remaining accessors of a `BatchResponse` answer, as the model's `viewRepr`:
+/// `<into_ok>-<ok>-<len><E|N>` with `ok<k>` / `err<k>` = the variant and the number of items it yields.
+pub fn batch_view<R: std::fmt::Debug + Clone>(r: &BatchResponse<'_, R>) -> String {
+	let a = match r.clone().into_ok() {
+		Ok(it) => format!("ok{}", it.count()),
+		Err(it) => format!("err{}", it.count()),
+	};
+	let b = match r.ok() {
+		Ok(it) => format!("ok{}", it.count()),
+		Err(it) => format!("err{}", it.count()),
+	};
+	format!("{a}-{b}-{}{}", r.len(), if r.is_empty() { "E" } else { "N" })
+}
+
 fn batch_comp(r: &BatchResponse<'_, Raw>) -> Comp {
 	let entries = r
 		.iter()
@@ -803,7 +817,7 @@ fn batch_comp(r: &BatchResponse<'_, Raw>) -> Comp {
 		.collect();
 	// an inconsistent accessor shows up as an impossible success count
 	let succ = if batch_accessors_consistent(r) { r.num_successful_calls() } else { usize::MAX };
-	Comp::Batch { succ, fail: r.num_failed_calls(), entries }
+	Comp::Batch { succ, fail: r.num_failed_calls(), view: batch_view(r), entries }
 }
 
 /// Parameters of a `case <n> client <num|str> <cap> <fcap>` header.
